@@ -154,6 +154,24 @@ def sampleN [DecidableEq N] (ds : Nat → Draw V) : Nat → HG N V → HG N V
   | 0, g => g
   | k + 1, g => sampleN ds k (store (sweep ds g))
 
+/-- `_get_initial_points`: the sampler's own `initial_point` if the user gave one, else the
+    sampler's `_get_default_initial_point(dim)` (ones; zeros for LinearRTO/UGLA) -/
+def initialPoints (user : N → Option V) (dflt : N → V) : N → V := fun n => (user n).getD (dflt n)
+
+inductive HErr | keyError | valueError
+  deriving DecidableEq, Repr
+
+/-- What `HybridGibbs.__init__` refuses.  `assigned n` = identity of the sampler object under key
+    `n` of `sampling_strategy` (`none`: no such key → `self.samplers[par_name]` raises `KeyError`
+    in `_get_initial_points`); a key that is not a parameter (`extra`) gives a sampler without
+    target and one object under two names is initialised twice — both make
+    `sampler.initialize()` raise `ValueError`. -/
+def validateStrategy (names : List N) (assigned : N → Option Nat) (extra : Bool) : Option HErr :=
+  if names.any (fun n => (assigned n).isNone) then some .keyError
+  else if extra then some .valueError
+  else if (names.map assigned).eraseDups.length != names.length then some .valueError
+  else none
+
 /-- `HybridGibbs.__init__`/`_initialize`: initial points (`_get_initial_points`: the sampler's own
     `initial_point` or its default, which becomes its `initial_point`), number of steps (default 1;
     `range` of a negative number is empty), `_set_targets`, `sampler.initialize()`. -/
